@@ -74,6 +74,9 @@ impl PatternSet {
     pub closed spec fn wf(&self) -> bool {
         forall|i: int| 0 <= i < self.patterns@.len() ==> (#[trigger] self.patterns@[i]).bytes@.len() < usize::MAX - 1
     }
+    pub closed spec fn is_single_question_mark(&self) -> bool {
+        self.patterns@.len() == 1 && self.patterns@[0].bytes@ =~= seq![63u8]
+    }
     pub closed spec fn matches(&self, s: Seq<u8>) -> bool {
         exists|i: int| 0 <= i < self.patterns@.len() && wm((#[trigger] self.patterns@[i]).bytes@, s)
     }
